@@ -380,13 +380,22 @@ def part_with(sh, res):
             f.write('name,val\nk,1\nm,2\nname,3\n')
         with open(p2, 'w') as f:
             f.write('name,jv\nk,p\nm,q\nname,r\n')
+        # the same tables with comment lines before the header and between records (read with comment_prefix)
+        p1c, p2c = os.path.join(scratch, 'c1.csv'), os.path.join(scratch, 'c2.csv')
+        with open(p1c, 'w') as f:
+            f.write('#c\n#c\nname,val\n#c\nk,1\nm,2\n#c\nname,3\n')
+        with open(p2c, 'w') as f:
+            f.write('#c\nname,jv\nk,p\n#c\nm,q\nname,r\n#c\n')
         meaning = {'header': True, 'headers': True, 'noheader': False, 'noheaders': False}
 
-        def run(text, flag):
+        def run(text, flag, commented=False):
             po = os.path.join(scratch, 'o.csv')
             warns = []
             try:
-                rb.query_csv(text, p1, ',', 'quoted', po, ',', 'quoted', 'utf-8', warns, flag)
+                if commented:
+                    rb.query_csv(text.replace('t2.csv', 'c2.csv'), p1c, ',', 'quoted', po, ',', 'quoted', 'utf-8', warns, flag, '#')
+                else:
+                    rb.query_csv(text, p1, ',', 'quoted', po, ',', 'quoted', 'utf-8', warns, flag)
                 with open(po) as f:
                     return ('ok', f.read(), sorted(warns))
             except Exception as e:
@@ -398,6 +407,14 @@ def part_with(sh, res):
             for flag in (True, False):
                 for mod, val in meaning.items():
                     for spell in ('with (%s)', 'WITH (%s)', 'With(%s)'):
+                        # comment lines must change nothing: the commented files give the plain files' answer (join-file name aside)
+                        gc_ = run(q + ' ' + (spell % mod), flag, commented=True)
+                        plain_ = run(q + ' ' + (spell % mod), flag)
+                        norm = lambda r: (r[0], r[1], [w.replace('c2.csv', 't2.csv') for w in r[2]] if isinstance(r[2], list) else r[2].replace('c2.csv', 't2.csv'))
+                        if norm(gc_) != norm(plain_):
+                            res.violation('comment-lines-change-with-modifier-result', {'query': q, 'modifier': spell % mod, 'caller_flag': flag}, plain_, gc_)
+                        else:
+                            res.feat('with_and_comments')
                         got = run(q + ' ' + (spell % mod), flag)
                         exp = run(q, val)
                         res.evaluations += 1
